@@ -160,6 +160,23 @@ def check_case(ctx: Ctx, c: Dict[str, Any], k: int = 0) -> None:
                     bad("flow_derivatives", f"{key} requested in a subset differs from the full request (mode={mode})", mode=mode, what="subset")
         except Exception as ex:
             bad("flow_derivatives", f"subset request raised {type(ex).__name__}: {ex}", exc=type(ex).__name__, mode=mode, what="subset")
+    # Gaussian derivative mode: not exact on the lattice, but covariant - the derivative w.r.t. axis j computed with spacing h equals the
+    # one computed with unit spacing divided by h[j] (and by h[j] h[l] for second order)
+    if form_name == "vector":
+        try:
+            dg = U.flow_derivatives(flow, order=2, mode="gaussian", sigma=0.8, spacing=sp)
+            d1u = U.flow_derivatives(flow, order=2, mode="gaussian", sigma=0.8, spacing=1)
+            for key, val in dg.items():
+                axes_ = key.split("/d")[1]
+                fac = 1.0
+                for ch in axes_:
+                    fac *= h[AX.index(ch)]
+                if max_err(val * fac, d1u[key]) > 1e-5 * max(1.0, float(d1u[key].abs().max())):
+                    bad("flow_derivatives", f"{key} with mode=gaussian and spacing {sp} is not the unit-spacing derivative divided by the spacing of its own axes "
+                        f"(off by {max_err(val * fac, d1u[key]):.3g})", mode="gaussian", what="spacing_covariance")
+                    break
+        except Exception as ex:
+            bad("flow_derivatives", f"mode=gaussian raised {type(ex).__name__}: {str(ex)[:100]}", exc=type(ex).__name__, mode="gaussian")
     # B-spline mode with a different stride per axis: a derivative does not depend on which other derivatives are requested with it
     strides = (2, 3) if D == 2 else (2, 3, 2)
     keys = [f"du/d{AX[j]}" for j in range(D)] + [f"dv/d{AX[0]}{AX[1]}", f"du/d{AX[D - 1]}{AX[D - 1]}"]
